@@ -72,7 +72,7 @@ pub fn run_adam(o: AdamOptions, init: f64, target: f64, hist: &[f64]) -> Vec<f64
 pub fn main(tier: &str, seed: u64, outdir: &str) {
     let mut cases = Cases::new();
     let mut rep = Report::new("C07");
-    let (ncase, maxlen) = if tier == "thorough" { (1500u64, 20000usize) } else { (300u64, 2500usize) };
+    let (ncase, maxlen) = if tier == "thorough" { (6000u64, 20000usize) } else { (300u64, 2500usize) };
 
     for case in 0..ncase {
         let mut r = Sm::new(seed, "C07-da", case);
@@ -259,7 +259,7 @@ fn search_oracle(run: &SearchRun, target: f64, init: f64) -> Option<String> {
 }
 
 fn search_cases(tier: &str, seed: u64, cases: &mut Cases, rep: &mut Report) {
-    let n = if tier == "thorough" { 3000 } else { 600 };
+    let n = if tier == "thorough" { 30000 } else { 600 };
     for case in 0..n {
         let mut r = Sm::new(seed, "C07-search", case);
         let sc = SearchScript {
